@@ -70,6 +70,11 @@ def init (lim : Nat) : St :=
     wM := 0, wL := 0, sM := 0, sL := 0, te := 0, c := 0, r := 0, d1 := 0, d2 := 0,
     hp := 0, hc := 0, hr := 0, hd1 := 0, hd2 := 0, d3 := 0, tmo := 0 }
 
+/-- The state in which a recorded trace may also start: everything finished, and the finished token of the
+    last conclusion still in the channel (reachable from `init`: `PB.C15.start_with_token_reachable`). -/
+def initTok (lim : Nat) : St :=
+  { init lim with cI := 1, cD := 1, mI := 1, mD := 1, fin := 1 }
+
 /-- value of the global counter `microTasks` -/
 def St.cnt (s : St) : Int := (s.cI : Int) - (s.cD : Int)
 /-- Σ over modules of `microTaskCnt` (`Status.Total.MicroTasks`) -/
